@@ -11,6 +11,7 @@ import (
 	"golang.org/x/tools/go/ssa"
 
 	"wtfverif/checker/internal/interval"
+	"wtfverif/checker/internal/load"
 	"wtfverif/checker/internal/origin"
 	"wtfverif/checker/internal/ssau"
 	"wtfverif/checker/internal/symx"
@@ -64,6 +65,31 @@ func stringChain(v ssa.Value) (steps []chainStep, root ssa.Value) {
 			steps = append(steps, chainStep{"tovalid", call, a[0]})
 			v = a[0]
 		default:
+			// a helper of the repository with one string parameter whose result
+			// derives from it: its steps are spliced in
+			if g := call.Common().StaticCallee(); g != nil && len(g.Blocks) > 0 && len(g.Params) == 1 && len(a) == 1 && g.Signature.Results().Len() == 1 && strings.HasPrefix(ssau.FuncName(g), load.ModulePath) {
+				rets := ssau.ReturnsOf(g)
+				if len(rets) == 1 {
+					inner, root := stringChain(rets[0].Results[0])
+					opaque := false
+					for _, st := range inner {
+						if strings.HasPrefix(st.kind, "other:") {
+							opaque = true
+						}
+					}
+					if root == ssa.Value(g.Params[0]) && !opaque {
+						// the innermost step's input is the helper's parameter: rebind it to the argument
+						for i := range inner {
+							if inner[i].in == ssa.Value(g.Params[0]) {
+								inner[i].in = a[0]
+							}
+						}
+						steps = append(steps, inner...)
+						v = a[0]
+						continue
+					}
+				}
+			}
 			steps = append(steps, chainStep{"other:" + ssau.CallName(call), call, nil})
 			return steps, v
 		}
@@ -161,6 +187,11 @@ func c14Query(c *Ctx, sx *symx.Ctx, fn *ssa.Function) {
 				need[k] = true
 			}
 		}
+		// collapsing with strings.Fields drops leading and trailing whitespace too:
+		// a separate trim is then optional
+		if need["collapse"] {
+			need["trim"] = true
+		}
 		for _, k := range []string{"strip", "trim", "collapse"} {
 			if !need[k] && chainOK {
 				chainOK = false
@@ -231,6 +262,16 @@ func c14Query(c *Ctx, sx *symx.Ctx, fn *ssa.Function) {
 			if call, isCall := x.(*ssa.Call); isCall && ssau.CallName(call) == "builtin.len" {
 				k, isConst := ssau.ConstInt(y)
 				arg := call.Common().Args[0]
+				// len(strings.Fields(x)) == 0 fails, and the result is Join of those very fields:
+				// the same test as result == ""
+				if isConst && k == 0 && ((op == token.EQL && t.failEdge == 0) || (op == token.NEQ && t.failEdge == 1) || (op == token.LEQ && t.failEdge == 0) || (op == token.GTR && t.failEdge == 1)) {
+					if jc, ok := res.(*ssa.Call); ok && ssau.CallName(jc) == "strings.Join" && jc.Common().Args[0] == arg {
+						if fc, ok := arg.(*ssa.Call); ok && ssau.CallName(fc) == "strings.Fields" {
+							haveEmpty = true
+							continue
+						}
+					}
+				}
 				if isConst && arg == ssa.Value(param) {
 					if (op == token.GTR && t.failEdge == 0) || (op == token.LEQ && t.failEdge == 1) {
 						haveLen, lenConst = true, k
